@@ -14,7 +14,7 @@ RULE = ("shape classes {CompactSize boundary (tx/input/output count, scriptSig/s
         "big scripts} x 8 coins x --verify on/off (x debug build for a subset): real csvdump run, the four CSV files compared "
         "byte-for-byte with the model's rendering of the logical chain (hash = sha256d(header), txid = sha256d(witness-stripped tx), "
         "lowercase hex, decimal integers, stored size prefix), file names and completion totals vs rows written. "
-        "One long run (more than 2^16 blocks in one process, three blk files) is compared with the model as well: thresholds of anything a run accumulates. distinct = (shape, dimension, CompactSize width hit, coin, verify, build) signatures")
+        "One long run (more than 2^16 blocks in one process, three blk files) is compared with the model as well: thresholds of anything a run accumulates. Half of the long / segwit / many-tx chains contain records longer than their block (slack inside the stored length prefix). distinct = (shape, dimension, CompactSize width hit, coin, verify, build) signatures")
 
 BOUNDS_Q = [1, 0xFC, 0xFD, 0xFE]
 BOUNDS_T = [1, 0xFC, 0xFD, 0xFE, 0xFFFF, 0x10000, 0x10001]
